@@ -52,6 +52,11 @@ def gen_cases(rng, tier: str) -> list[dict]:
             c["x"] = rng.choice(vs) if vs and rng.random() < 0.85 else "w"
             c["prior"] = prior
             prior = c["p"]
+            r = rng.random()
+            if r < 0.3:
+                c["warm"] = [c["p"], c["p"]]          # the route's own object asked at this very point before (twice)
+            elif r < 0.5 and prior:
+                c["warm"] = [c["prior"] or c["p"], c["p"]]
             cases.append(c)
     return cases
 
@@ -68,7 +73,8 @@ def check_cases(cases: list[dict], rep: Report, known: dict) -> None:
             obj = wire.build_raw(c["e"])
             if c.get("prior"):          # the same expression object was evaluated before, elsewhere
                 call(obj.at, wire.build_point(c["prior"]))
-            impl = routes.run_route(r, obj, c["x"] if r not in routes.DERIV_ROUTES else None, p)
+            impl = routes.run_route(r, obj, c["x"] if r not in routes.DERIV_ROUTES else None, p,
+                                    warm=[wire.build_point(q) for q in c.get("warm", [])])
             xr = c["x"] if r not in routes.DERIV_ROUTES else (common.names_of(e) or ["whatever"])[0]
             nc = NumCase((c["e"], c["p"], c["x"], r), f"route {r} {xr} {c['e']} {c['p']}", impl,
                          dict(c, route=r, impl=repr(impl), at=repr(base)))
@@ -116,7 +122,8 @@ def check_cases(cases: list[dict], rep: Report, known: dict) -> None:
 
 def k1_explains(c: dict, r: str, p) -> bool:
     with common.k1_disabled():
-        out = routes.run_route(r, wire.build_raw(c["e"]), c["x"] if r not in routes.DERIV_ROUTES else None, p)
+        out = routes.run_route(r, wire.build_raw(c["e"]), c["x"] if r not in routes.DERIV_ROUTES else None, p,
+                               warm=[wire.build_point(q) for q in c.get("warm", [])])
     return out[0] == "ok"
 
 
